@@ -603,15 +603,26 @@ class E9Determinism(Engine):
         from dst.gen.actuators import ActGen
         from dst.gen.programs import GenOptions, ProgGen
 
+        from dst.engines.e4_inputs import InputGen
+        from dst.engines.e5_buzzer import BuzzGen
+        from dst.engines.e6_lcd import LcdGen
+
         scripts = []
         for _ in range(rng.randint(4, 8)):
             r = rng.random()
-            if r < 0.55:
+            if r < 0.4:
                 scripts.append(promotion_script(rng))
-            elif r < 0.85:
+            elif r < 0.6:
                 scripts.append(ProgGen(rng, avoid, GenOptions(max_stmts=rng.choice([8, 16, 24]))).generate())
-            else:
+            elif r < 0.7:
                 scripts.append(ActGen(rng, avoid, tier).generate())
+            elif r < 0.88:
+                # LCD histories share the display name `lcd` (glyph/animation counters, helper templates)
+                scripts.append(LcdGen(rng, avoid, tier).generate()["script"])
+            elif r < 0.94:
+                scripts.append(BuzzGen(rng, avoid, tier).generate()["script"])
+            else:
+                scripts.append(InputGen(rng, avoid, tier).generate()["script"])
         n_seeds = 4 if tier == "quick" else 28
         hash_seeds = [0, 1, 2, 3] + [rng.randint(4, 4294967295) for _ in range(n_seeds)]
         n = len(scripts)
